@@ -103,6 +103,19 @@ def view_same(h0, h1, g):
                   z3.ForAll([s, d], edge(h0, g, s, d) == edge(h1, g, s, d)))
 
 
+def closed_under(h, g, Z):
+    """Z is closed under the edges of graph g"""
+    u, v = X('u'), X('v')
+    return z3.ForAll([u, v], z3.Implies(z3.And(Z[u], edge(h, g, u, v)), Z[v]))
+
+
+def reach_least_instance(c, Zt):
+    """instance at the set Zt of the `least` clause of get_reachable_set_from's postcondition
+    (c: the call context of that call)"""
+    R = c.h1.set_of(c.res.t)
+    return z3.Implies(z3.And(hp.subset(c.nodes.x.mem, Zt), closed_under(c.h0, c.self.t, Zt)), hp.subset(R, Zt))
+
+
 # ---- contracts ----------------------------------------------------------------
 
 def make():
@@ -194,7 +207,7 @@ def make():
         h0, h1, g, a, b = c.h0, c.h1, c.self.t, c.src.t, c.dst.t
         return [
             ('nodes', z3.ForAll([s], V(h1, g)[s] == z3.Or(V(h0, g)[s], s == a, s == b))),
-            ('edges', z3.ForAll([s, d], edge(h1, g, s, d) == z3.Or(edge(h0, g, s, d), z3.And(s == a, d == b)))),
+            ('edges', hp.FA([s, d], edge(h1, g, s, d) == z3.Or(edge(h0, g, s, d), z3.And(s == a, d == b)), [succ(h1, g, s)[d], succ(h0, g, s)[d]])),
             ('wf', wfG(h1, g)),
             ('old_sets_kept', z3.ForAll([s], z3.Implies(V(h0, g)[s], sref(h1, g, s) == sref(h0, g, s)))),
             ('new_sets_fresh', z3.ForAll([s], z3.Implies(z3.And(V(h1, g)[s], z3.Not(V(h0, g)[s])), sref(h1, g, s) >= h0.alloc))),
@@ -292,9 +305,9 @@ def make():
         h0, h1, g, r = c.h0, c.h1, c.self.t, c.res.t
         return [
             ('nodes', z3.ForAll([s], V(h1, r)[s] == V(h0, g)[s])),
-            ('edges', z3.ForAll([s, d], edge(h1, r, s, d) == edge(h0, g, s, d))),
+            ('edges', hp.FA([s, d], edge(h1, r, s, d) == edge(h0, g, s, d), [succ(h1, r, s)[d], succ(h0, g, s)[d]])),
             ('wf', wfG(h1, r)),
-            ('fresh', z3.And(r >= h0.alloc, fresh_graph(h0, h1, r))),
+            ('fresh', z3.And(r >= h0.alloc, r < h1.alloc, fresh_graph(h0, h1, r))),
         ]
 
     def clone_l1(lc):
@@ -322,9 +335,9 @@ def make():
         N = c.nodes.x.mem
         return [
             ('nodes', z3.ForAll([s], V(h1, r)[s] == z3.And(N[s], V(h0, g)[s]))),
-            ('edges', z3.ForAll([s, d], edge(h1, r, s, d) == z3.And(edge(h0, g, s, d), N[s], N[d]))),
+            ('edges', hp.FA([s, d], edge(h1, r, s, d) == z3.And(edge(h0, g, s, d), N[s], N[d]), [succ(h1, r, s)[d], succ(h0, g, s)[d]])),
             ('wf', wfG(h1, r)),
-            ('fresh', z3.And(r >= h0.alloc, fresh_graph(h0, h1, r))),
+            ('fresh', z3.And(r >= h0.alloc, r < h1.alloc, fresh_graph(h0, h1, r))),
         ]
 
     K.append(Contract(
@@ -337,9 +350,9 @@ def make():
         h0, h1, g, r = c.h0, c.h1, c.self.t, c.res.t
         return [
             ('nodes', z3.ForAll([s], V(h1, r)[s] == V(h0, g)[s])),
-            ('edges', z3.ForAll([s, d], edge(h1, r, s, d) == edge(h0, g, d, s))),
+            ('edges', hp.FA([s, d], edge(h1, r, s, d) == edge(h0, g, d, s), [succ(h1, r, s)[d], succ(h0, g, d)[s]])),
             ('wf', wfG(h1, r)),
-            ('fresh', z3.And(r >= h0.alloc, fresh_graph(h0, h1, r))),
+            ('fresh', z3.And(r >= h0.alloc, r < h1.alloc, fresh_graph(h0, h1, r))),
         ]
 
     K.append(Contract(
@@ -347,9 +360,7 @@ def make():
         requires=lambda c: [('wf', wfG(c.h0, c.self.t))], ensures=rev_ens, touches={'dd', 'dv', 'sets', 'fld__next'}, owner='C13'))
 
     # -- get_reachable_set_from -------------------------------------------------------------
-    def closed(h, g, Z):
-        u, v = X('u'), X('v')
-        return z3.ForAll([u, v], z3.Implies(z3.And(Z[u], edge(h, g, u, v)), Z[v]))
+    closed = closed_under
 
     def reach_skolems(c):
         c.sk['Z'] = hp.fresh('Z', hp.SetH)
@@ -371,7 +382,7 @@ def make():
             ('contains_start', hp.subset(N, R)),
             ('closed_under_edges', closed(h0, g, R)),
             ('only_nodes', hp.subset(R, V(h0, g))),
-            ('fresh', c.res.t >= h0.alloc),
+            ('fresh', z3.And(c.res.t >= h0.alloc, c.res.t < h1.alloc)),
         ]
         if c.side == 'callee':
             out.append(('least', hp.subset(R, c.sk['Z'])))
